@@ -335,6 +335,12 @@ def _op(m):
     return ((v[0], v[1], v[3], v[4]), (v[2], v[5])), (v[6], v[7], v[8])
 
 
+def _opstr(g, k):
+    """the source string of operation k (a tree under test may list more operations than strings)"""
+    s = g.get("ops_str") or []
+    return s[k] if k < len(s) else "?"
+
+
 def _comp(a, b):
     (a0, a1, a2, a3), (s0, s1) = a
     (b0, b1, b2, b3), (u0, u1) = b
@@ -381,7 +387,7 @@ def tables_engine(prop, conf, params, tier, seed, broken_gate):
             # (all zero as Matrix3::zeros() leaves it, or the (0, 0, 1) of a homogeneous matrix: the same affine map)
             if any(x != 0 for x in bottom[:2]) or bottom[2] not in (0, 1):
                 findings.append(dict(engine="tables", properties=["C16"], case=case + " op=%d" % k,
-                                     what="operation %d (%s) has a non-zero bottom row %s" % (k, g["ops_str"][k], bottom)))
+                                     what="operation %d (%s) has a non-zero bottom row %s" % (k, _opstr(g, k), bottom)))
         if len(ops) != len(spec):
             findings.append(dict(engine="tables", properties=["C16"], case=case,
                                  what="%d operations, the plane group has order %d" % (len(ops), len(spec))))
@@ -390,7 +396,7 @@ def tables_engine(prop, conf, params, tier, seed, broken_gate):
             if o != s:
                 findings.append(dict(engine="tables", properties=["C16"], case=case + " op=%d" % k,
                                      what="operation %d is %s = %s, International Tables give %s" % (
-                                         k, g["ops_str"][k], [[str(x) for x in o[0]], [str(x) for x in o[1]]],
+                                         k, _opstr(g, k), [[str(x) for x in o[0]], [str(x) for x in o[1]]],
                                          [[str(x) for x in s[0]], [str(x) for x in s[1]]])))
         # group axioms modulo Z^2 on the code's own operations
         for i, a in enumerate(ops):
@@ -427,7 +433,15 @@ def run_engines(prop, conf, tier, seed, broken_gate=False):
                  distribution={}, correspondence={}, searched=0, notes=[])
     rules = []
     for name, params in conf["engines"]:
-        r = ENGINES[name](prop, conf, params, tier, seed, broken_gate)
+        try:
+            r = ENGINES[name](prop, conf, params, tier, seed, broken_gate)
+        except Exception as e:            # an engine that cannot digest what this tree produces: the tie no longer checks
+            import traceback
+            tb = traceback.format_exc().strip().split("\n")
+            r = dict(evaluations=0, distinct_nontrivial=0, rule="(engine failed)", samples=[], findings=[],
+                     mismatches=[dict(engine=name, case="(%s engine)" % name,
+                                      what="the %s engine could not process what this tree produces: %s: %s [%s]"
+                                           % (name, type(e).__name__, e, tb[-3].strip() if len(tb) >= 3 else ""))])
         total["evaluations"] += r["evaluations"]
         total["distinct_nontrivial"] += r["distinct_nontrivial"]
         rules.append("[%s] %s" % (name, r["rule"]))
